@@ -251,3 +251,47 @@ def correspond(ctx, name, host, metas, res):
         ctx.broken.append(('correspondence', {'key': m[0], 'first': m[1], 'last': m[2], 'paths': [[v, t.hex()] for v, t in m[4]],
                                               'impl': res[idx[b]]}))
     return [idx[b] for b in bad]
+
+
+_CONST_CACHE = {}
+
+
+def handler_constants(R, key, limit=16):
+    """integer literals that the handler registered for `key` (and the helpers it calls in its module, transitively)
+    compares with or masks by: boundary values for source-guided generation"""
+    import ast
+    row = R.by_key.get(key)
+    if row is None:
+        return []
+    fam, fn = row[0], row[2]
+    path = f'/repo/pykdebugparser/trace_handlers/{fam}.py'
+    if path not in _CONST_CACHE:
+        try:
+            tree = ast.parse(open(path).read())
+        except Exception:
+            _CONST_CACHE[path] = {}
+        else:
+            funcs = {}
+            for node in tree.body:
+                if isinstance(node, ast.FunctionDef):
+                    consts, calls = set(), set()
+                    for sub in ast.walk(node):
+                        if isinstance(sub, (ast.Compare, ast.BinOp, ast.BoolOp, ast.IfExp, ast.If, ast.Dict)):
+                            for c in ast.walk(sub):
+                                if isinstance(c, ast.Constant) and isinstance(c.value, int) and not isinstance(c.value, bool):
+                                    consts.add(c.value)
+                        if isinstance(sub, ast.Name):
+                            calls.add(sub.id)
+                    funcs[node.name] = (consts, calls)
+            _CONST_CACHE[path] = funcs
+    funcs = _CONST_CACHE[path]
+    seen, todo, out = set(), [fn], set()
+    while todo:
+        f = todo.pop()
+        if f in seen or f not in funcs:
+            continue
+        seen.add(f)
+        out |= funcs[f][0]
+        todo += [c for c in funcs[f][1] if c in funcs]
+    out = sorted(v for v in out if 0 <= v < 2 ** 64 and v > 3)
+    return out[:limit]
